@@ -50,3 +50,49 @@ pub fn stages() -> Vec<StageRow> {
 pub fn locally_cached_work_packets<VM: crate::vm::VMBinding>() -> usize {
     crate::scheduler::GCWorker::<VM>::VERIF_LOCALLY_CACHED_WORK_PACKETS
 }
+
+/// `WorkerGoals` (crate-private) behind a plain interface: goals are `0 = Gc`, `1 = Shutdown`,
+/// `2 = StopForFork` (the enum order, i.e. the priority order).
+pub struct Goals(crate::scheduler::verif_goals::WorkerGoals);
+
+fn goal_of(g: usize) -> crate::scheduler::verif_goals::WorkerGoal {
+    use crate::scheduler::verif_goals::WorkerGoal;
+    match g {
+        0 => WorkerGoal::Gc,
+        1 => WorkerGoal::Shutdown,
+        _ => WorkerGoal::StopForFork,
+    }
+}
+
+impl Default for Goals {
+    fn default() -> Self {
+        Self::new()
+    }
+}
+
+impl Goals {
+    /// `WorkerGoals::default()`
+    pub fn new() -> Self {
+        Goals(Default::default())
+    }
+    /// `set_request`
+    pub fn set_request(&mut self, g: usize) -> bool {
+        self.0.set_request(goal_of(g))
+    }
+    /// `poll_next_goal`
+    pub fn poll_next_goal(&mut self) -> Option<usize> {
+        self.0.poll_next_goal().map(|g| g as usize)
+    }
+    /// `current`
+    pub fn current(&self) -> Option<usize> {
+        self.0.current().map(|g| g as usize)
+    }
+    /// `on_current_goal_completed`
+    pub fn complete(&mut self) {
+        self.0.on_current_goal_completed()
+    }
+    /// `debug_is_requested`
+    pub fn is_requested(&self, g: usize) -> bool {
+        self.0.debug_is_requested(goal_of(g))
+    }
+}
